@@ -1,6 +1,7 @@
 from operator import xor
 
 import numpy as np
+from pb_bss import _verif
 from cached_property import cached_property
 from dataclasses import dataclass
 
@@ -201,6 +202,8 @@ class CBMMTrainer:
                 saliency=saliency,
                 weight_constant_axis=weight_constant_axis,
             )
+            if _verif.ENABLED:
+                _verif.step(self, iteration, model, affiliation)
 
         return model
 
